@@ -1,5 +1,67 @@
-"""Thorough tier: widened scope + mutation matrix (filled in later)."""
+"""Thorough tier = quick + widened scope (done inside the property modules when ctx.tier == 'thorough')
++ the mutation matrix: every catalogued variant of this property is analysed in a scratch copy and the
+outcome (killed / survived / false alarm / not applicable) is written into the evidence.
+
+The matrix tests the checker, not the repository: it never changes the verdict on /repo.  A breaking
+variant that survives, or a preserving variant that raises an alarm, is listed under `checker_defects`.
+"""
+from __future__ import annotations
+
+import os
+import sys
+import time
+from concurrent.futures import ProcessPoolExecutor
+from typing import Dict, List
+
+from .variants import V
 
 
-def widen(ctx, mod):
-    return {}
+def _one(args):
+    prop, idx, root = args
+    os.environ["GMSA_REPO"] = root
+    from .mutate import analyse_variant, VariantError
+    v = [x for x in V if x["property"] == prop][idx]
+    t0 = time.time()
+    try:
+        code, failed, out = analyse_variant(prop, [(v["file"], v["old"], v["new"])], tier="quick", base=root)
+    except VariantError as exc:
+        return {"desc": v["desc"], "kind": v["kind"], "outcome": "not applicable on this tree", "why": str(exc)[:120]}
+    except Exception as exc:                      # analyser crash on a variant: report, never hide
+        return {"desc": v["desc"], "kind": v["kind"], "outcome": "analyser error", "why": repr(exc)[:200]}
+    rules = sorted({f["rule"] for f in failed})
+    if v["kind"] == "B":
+        outcome = "killed" if code == 1 else ("analysis-error" if code == 2 else "SURVIVED")
+    else:
+        outcome = "silent" if code == 0 else "FALSE ALARM"
+    return {"desc": v["desc"], "kind": v["kind"], "file": v["file"], "outcome": outcome, "exit": code, "rules": rules,
+            "first_report": (failed[0]["construct"][:100] if failed else ""), "wall_s": round(time.time() - t0, 2)}
+
+
+def widen(ctx, mod) -> Dict:
+    prop = ctx.prop
+    mine = [x for x in V if x["property"] == prop]
+    root = ctx.repo.root
+    jobs = [(prop, i, root) for i in range(len(mine))]
+    results: List[Dict] = []
+    t0 = time.time()
+    workers = min(16, max(1, len(jobs)))
+    if jobs:
+        with ProcessPoolExecutor(max_workers=workers) as ex:
+            results = list(ex.map(_one, jobs))
+    killed = sum(1 for r in results if r["outcome"] == "killed")
+    nb = sum(1 for r in results if r["kind"] == "B" and r["outcome"] not in ("not applicable on this tree",))
+    silent = sum(1 for r in results if r["outcome"] == "silent")
+    npres = sum(1 for r in results if r["kind"] == "P" and r["outcome"] not in ("not applicable on this tree",))
+    defects = [r for r in results if r["outcome"] in ("SURVIVED", "FALSE ALARM", "analysis-error", "analyser error")]
+    for r in defects:
+        print("MATRIX: %s variant '%s' -> %s" % (r["kind"], r["desc"], r["outcome"]))
+    print("MATRIX %s: %d/%d breaking variants killed, %d/%d preserving variants silent, %d not applicable; %.1fs on %d workers"
+          % (prop, killed, nb, silent, npres, sum(1 for r in results if r["outcome"].startswith("not applicable")),
+             time.time() - t0, workers))
+    return {"mutation_matrix": {"breaking_total": nb, "breaking_killed": killed, "preserving_total": npres,
+                                "preserving_silent": silent, "variants": results, "checker_defects": defects,
+                                "note": "variants are scratch copies of the current tree with one text edit each; "
+                                        "they are parsed and analysed, never imported or executed; the matrix does "
+                                        "not change the verdict on /repo"},
+            "thorough_scope": "package-wide rules evaluated over every function of every module; effect summaries "
+                              "to the whole-package fixpoint (depth bound %d)" % 6}
